@@ -1,6 +1,6 @@
 (* C08, model B: soundness of the lock-set discipline in the trace model, and the generated-data obligation. *)
 From Coq Require Import String List Bool Arith Lia.
-From UV Require Import Gen.SyncSkeleton Model.Sync.
+From UV Require Import Gen.SyncSkeleton Gen.SharedState Model.Sync.
 Import ListNotations.
 Open Scope string_scope.
 Open Scope list_scope.
@@ -111,4 +111,25 @@ Proof. vm_compute. reflexivity. Qed.
 (* the pre-repair Broadcast (F9): the same variables without the mutex are rejected *)
 Example f9_rejected :
   lockset_ok [("uhppote.ut0311.Broadcast", "replies", [("go1", "w", [], 86); ("go1", "r", [], 86); ("parent", "r", [], 96)])] = false.
+Proof. reflexivity. Qed.
+
+(* ---------- process-wide state ---------- *)
+Theorem shared_ok_spec : forall l, shared_ok l = true -> forall p n k w, In (p, n, k, w) l -> w = 0 /\ In k benign_kinds.
+Proof.
+  intros l H p n k w I. pose proof (proj1 (forallb_forall _ _) H _ I) as E. cbn beta iota in E.
+  apply andb_prop in E as [E1 E2]. split.
+  - now apply Nat.eqb_eq.
+  - apply existsb_exists in E2 as (k' & I' & E). apply String.eqb_eq in E. now subst.
+Qed.
+
+(* GENERATED-DATA OBLIGATION: the package-level variables of the current source *)
+Theorem shared_state_benign : shared_ok shared_state = true.
+Proof. vm_compute. reflexivity. Qed.
+
+(* a pooled receive buffer, a written cache map and a package-level value whose address is handed out are rejected *)
+Example pool_rejected : shared_ok [("uhppote", "buffers", "composite:sync.Pool", 0)] = false.
+Proof. reflexivity. Qed.
+Example written_map_rejected : shared_ok [("encoding/UTO311-L0x", "offsets", "map-literal", 1)] = false.
+Proof. reflexivity. Qed.
+Example shared_slice_rejected : shared_ok [("encoding/bcd", "empty", "slice-literal", 1)] = false.
 Proof. reflexivity. Qed.
